@@ -184,8 +184,17 @@ func (c *Ctx) Len() int {
 }
 
 // Bytes draws a variable-length byte string (nil, empty, short, occasionally longer).
+// bufferEdges are lengths around the sizes of the library's internal buffers (the 1 KiB encoder buffer, 4 KiB frames and
+// pages, 64 KiB chunks): a byte string or text that is one below, exactly, or one above them.
+var bufferEdges = []int{1016, 1023, 1024, 1025, 1032, 2047, 2048, 2049, 4095, 4096, 4097, 65535, 65536, 65537}
+
 func (c *Ctx) Bytes() []byte {
 	var n int
+	if c.Intn(40) == 0 {
+		b := make([]byte, bufferEdges[c.Intn(len(bufferEdges))])
+		c.Fill(b)
+		return b
+	}
 	switch k := c.Intn(12); {
 	case k == 0:
 		return nil
@@ -216,6 +225,8 @@ func (c *Ctx) String() string {
 	}
 	n := 0
 	switch k := c.Intn(8); {
+	case c.Intn(40) == 0:
+		n = bufferEdges[c.Intn(len(bufferEdges))]
 	case k == 0:
 		n = 0
 	case k <= 4:
